@@ -265,6 +265,9 @@ func quickPass(obls []*Obligation, prelude, dir string, opts *Options) {
 		t = opts.Timeout
 	}
 	for i, o := range obls {
+		if o.Structural {
+			continue
+		}
 		wg.Add(1)
 		sem <- struct{}{}
 		go func(i int, o *Obligation) {
@@ -310,7 +313,7 @@ func dischargeAll(obls []*Obligation, prelude string, opts *Options) {
 	var wg sync.WaitGroup
 	sem := make(chan struct{}, jobs)
 	for i, o := range obls {
-		if o.Status == "proved" || o.MustFail {
+		if o.Status == "proved" || o.MustFail || o.Structural {
 			continue
 		}
 		wg.Add(1)
